@@ -16,9 +16,9 @@ static const int D = VDIM, S = VORDER, M = 2 * S, ORD = 2 * S - 1;
 typedef Spl<S, D> Sp;
 typedef Problem<D> Prob;
 
-struct Cfg { unsigned mask = 0; int N = 2; int tm = 0, sm = 0; double rho = 0.25; int K = 3; int fmode = 8; int t0i = 0; int tcmode = 1; int wcmode = 1; bool far = false;
+struct Cfg { unsigned mask = 0; int N = 2; int tm = 0, sm = 0; double rho = 0.25; int K = 3; int fmode = 8; int t0i = 0; int tcmode = 1; int wcmode = 1; bool far = false; bool origin = false;
   std::string str() const { static const char *tmn[] = {"QuadInv", "Identity", "AffSq(user)"}, *smn[] = {"IdentitySpatial", "Scale(user)", "Proj(user)", "Tanh(user)"};
-    return fmt("%s D=%d N=%d flags=0x%02x timemap=%s spatialmap=%s rho=%g K=%d running=%s t0#%d timecost#%d%s", order_name(S), D, N, mask, tmn[tm], smn[sm], rho, K, RunCost<D>::mode_name(fmode), t0i, tcmode, far ? " far-frame(+3200,-2600,..)" : ""); } };
+    return fmt("%s D=%d N=%d flags=0x%02x timemap=%s spatialmap=%s rho=%g K=%d running=%s t0#%d timecost#%d%s%s", order_name(S), D, N, mask, tmn[tm], smn[sm], rho, K, RunCost<D>::mode_name(fmode), t0i, tcmode, far ? " far-frame(+3200,-2600,..)" : "", origin ? " waypoints 0,1 at the origin, zero start velocity" : ""); } };
 static const double T0S[3] = {0.375, -2.5, 1024.125};
 
 template <class TM, class SM> struct Harness {
@@ -36,6 +36,9 @@ template <class TM, class SM> struct Harness {
     // reference waypoints inside the image of the spatial map
     Lcg g((uint64_t)c.args.seed * 7 + cfg.N);
     for (int i = 0; i <= cfg.N; ++i) { Eigen::VectorXd xi(dof(i)); for (int q = 0; q < xi.size(); ++q) xi(q) = g.dyadic() * 0.5; Eigen::VectorXd p = to_phys(xi, i); for (int d = 0; d < D; ++d) prob.P(i, d) = p(d); }
+    // waypoints 0 and 1 exactly at the origin and a zero start velocity: the first sample of segments 0 and 1 has p = 0 (and v = 0 at the start)
+    // exactly, so a cost that is linear in the state is exactly 0 there while its gradient is not
+    if (cfg.origin) { prob.P.row(0).setZero(); if (cfg.N >= 2) prob.P.row(1).setZero(); prob.bc.start_velocity.setZero(); }
     // far frame: all waypoints translated by a large dyadic vector (decision variables of magnitude > 1000)
     if (cfg.far) for (int i = 0; i <= cfg.N; ++i) for (int d = 0; d < D; ++d) prob.P(i, d) += (d & 1) ? -2600.0 : 3200.0;
     if (cfg.tm == 2) opt.setTimeMap(&utm);
@@ -293,6 +296,7 @@ int main(int argc, char **argv) {
       for (int tm = 0; tm < 3; ++tm) for (int sm = 0; sm < 4; ++sm) { Cfg g; g.mask = m; g.N = N; g.tm = tm; g.sm = sm; unit_do(g); }
       for (int f = 0; f <= 10; ++f) for (double rho : {0.0, 0.25}) for (int K : {1, 2, 3, 8}) { if (!th && N > 3 && !(K == 3 || f == 8)) continue; Cfg g; g.mask = m; g.N = N; g.fmode = f; g.rho = rho; g.K = K; unit_do(g); }
       for (int t0i = 1; t0i < 3; ++t0i) for (int tcm = 0; tcm < 3; ++tcm) { Cfg g; g.mask = m; g.N = N; g.t0i = t0i; g.tcmode = tcm; g.wcmode = tcm & 1; g.fmode = 9; unit_do(g); }
+      for (int K : {1, 3}) for (int f : {11, 5}) { Cfg g; g.mask = m; g.N = N; g.fmode = f; g.K = K; g.origin = true; unit_do(g); }   // state exactly 0 at a sample (identity spatial map)
       if (th) for (int K : {7, 49, 64}) { Cfg g; g.mask = m; g.N = N; g.K = K; g.fmode = 9; g.rho = 0.0009765625; unit_do(g); }
     }
     // (c) thorough: full product of the configuration axes for N <= 3, DIM <= 2
